@@ -19,6 +19,8 @@ ASSUMPTIONS = [
 ]
 SPEC = {
     'quick': [('K21', 'lend', 4),
+              ('K25', 'lend', 4),
+              ('K24', 'liq', 3),
               ('K0', 'small', 4),
               ('K1', 'ar', 6),
               ('K16', 'cross', 4),
